@@ -53,15 +53,10 @@ def run(repo, chk):
     ok = inner is not None and len(P.inits) == 1 and order(P.inits[0]) < order(loop) and P.itor is not None
     chk.ob("R03.2", "overlay.HandlerCollection.proceed:returns-inner-collection", ok, pr.where, "the collection for the callee's body is exactly the kept selectors plus the pushed children")
     # ---------------- R03.3
-    gets = [n for n in ast.walk(loop) if isinstance(n, ast.Assign) and len(n.targets) == 1 and is_name(n.targets[0], str(fitvar))
-            and expand(n.value, pr.node) == f"_selector_fit_cache.get(({P.fn}, {sel}))"]
-    computes = [n for n in ast.walk(loop) if isinstance(n, ast.Assign) and len(n.targets) == 1 and is_name(n.targets[0], str(fitvar)) and norm(n.value) == f"fits_selector({P.fn}, {sel})"]
-    stores = [n for n in ast.walk(pr.node) if isinstance(n, (ast.Assign, ast.AugAssign)) and any(norm(t).startswith("_selector_fit_cache[") for t in (n.targets if isinstance(n, ast.Assign) else [n.target]))]
-    ok = len(gets) == 1 and len(computes) == 1 and conds(computes[0], loop) == [f"{fitvar} is None"] and order(gets[0]) < order(computes[0]) \
-        and all(isinstance(n, ast.Assign) and expand(n.targets[0], pr.node) == f"_selector_fit_cache[{P.fn}, {sel}]" and norm(n.value) == fitvar and conds(n, loop) == [f"{fitvar} is None"] for n in stores)
+    ok = P.memo.ok
     # (a store placed before the computation writes the None it just read: the same as no store -- every later lookup is a miss)
     chk.ob("R03.3", "overlay.HandlerCollection.proceed:memo", ok, pr.where,
-           "the fit is looked up per (function, selector); a miss (None) is computed by fits_selector (and, if stored, stored under the same key), False means 'does not fit'")
+           "the fit is looked up per (function, selector); a miss is computed by fits_selector (and, if stored, stored under the same key), False means 'does not fit': " + P.memo.why)
     fs = repo.func("overlay.fits_selector")
     ff = facts_of(fs)
     pfn, selp = (a_.arg for a_ in fs.node.args.args[:2])
